@@ -421,6 +421,9 @@ class TNode:
     def pv_binop(self, ip, opname, other, reflected=False):
         if opname == 'matmul' and isinstance(other, TNode):
             a, b = (other, self) if reflected else (self, other)
+            if not any((not e.is_dangling()) and any(n is b for n, _ in e.ends) for e in a.edges):
+                # tensornetwork: contract_between(..., allow_outer_product=False)
+                raise PyRaise(ExcVal('ValueError', ('No edges found between nodes and allow_outer_product=False.',)))
             return contract_between(a, b)
         raise Unsupported('node operator %s' % opname)
 
@@ -443,11 +446,19 @@ def contract_between(a, b):
         la = a.arr.out[a1 if n1 is a else a2]
         lb = b.arr.out[a2 if n2 is b else a1]
         if isinstance(la, tuple) or isinstance(lb, tuple):
-            raise Unsupported('contraction of a reshaped leg')
-        ra, rb = find(la), find(lb)
-        if ra != rb:
-            parent[rb] = ra
+            # two merged legs with the same factorisation contract factor by factor
+            if not (isinstance(la, tuple) and isinstance(lb, tuple) and la[0] == lb[0] == 'flat' and len(la) == len(lb)
+                    and not any(isinstance(x, tuple) for x in la[1:] + lb[1:])):
+                raise Unsupported('contraction of a reshaped leg')
+            pairs = list(zip(la[1:], lb[1:]))
+        else:
+            pairs = [(la, lb)]
+        for xa, xb in pairs:
+            ra, rb = find(xa), find(xb)
+            if ra != rb:
+                parent[rb] = ra
     labs = set(l for _, ls in a.arr.factors + b.arr.factors for l in ls) | set(l for l in a.arr.out + b.arr.out if not isinstance(l, tuple))
+    labs |= set(x for l in a.arr.out + b.arr.out if isinstance(l, tuple) and l[0] == 'flat' for x in l[1:] if not isinstance(x, tuple))
     ident = {l: find(l) for l in labs if find(l) != l}
     sa, sb = a.arr.substitute(ident), b.arr.substitute(ident)
     keep_a = [i for i, e in enumerate(a.edges) if e not in shared]
@@ -459,6 +470,10 @@ def contract_between(a, b):
     c.edges = [a.edges[i] for i in keep_a] + [b.edges[i] for i in keep_b]
     for ax, e in enumerate(c.edges):
         e.ends = [((c, ax) if (n is a or n is b) else (n, x)) for n, x in e.ends]
+    # tensornetwork gives the two contracted (now dead) nodes FRESH dangling edges: an edge read from them afterwards is not an
+    # edge of the new node
+    for dead in (a, b):
+        dead.edges = [TEdge(dead, i) for i in range(len(dead.edges))]
     return c
 
 
@@ -494,41 +509,47 @@ def split_node_full_svd(ip, node, left_edges, right_edges, **trunc):
     identities.  Every network identity that holds for this factorisation holds for the SVD with nothing truncated (the code may only
     contract the factors; their isometry is not available).  The truncation parameters of the call are recorded (ghost 'svd_calls')."""
     left_edges, right_edges = list(left_edges), list(right_edges)
-    if len(right_edges) != 1:
-        raise Unsupported('split_node_full_svd with %d right edges' % len(right_edges))
+    if not right_edges:
+        raise Unsupported('split_node_full_svd without right edges')
     if sorted(map(id, left_edges + right_edges)) != sorted(map(id, node.edges)):
         raise PyRaise(ExcVal('ValueError', ('left_edges and right_edges do not partition the edges of the node',)))
     ip.ghost.setdefault('svd_calls', []).append(dict(trunc))
     order = left_edges + right_edges
     perm = [next(i for i, e in enumerate(node.edges) if e is x) for x in order]
+    nl, nr = len(left_edges), len(right_edges)
+    arr = node.arr.permute(perm)
+    if any(isinstance(l, tuple) for l in arr.out[nl:]) and nr > 1:
+        raise Unsupported('split_node_full_svd: merging reshaped legs')
 
-    def mk(arr, edges):
+    def compound(labels):
+        return labels[0] if len(labels) == 1 else ('flat',) + tuple(labels)
+
+    def mk(arr_, edges):
         n = TNode.__new__(TNode)
-        n.arr, n.name, n.edges = arr, None, edges
+        n.arr, n.name, n.edges = arr_, None, edges
         for ax, e in enumerate(edges):
             e.ends = [((n, ax) if (m is node or m is n) else (m, x)) for m, x in e.ends]
         return n
-    r_edge = right_edges[0]
-    # u: the node with the right axis as new bond
-    b1 = TEdge.__new__(TEdge)
-    b1.name, b1.ends = None, []
-    u = mk(node.arr.permute(perm), left_edges + [b1])
-    b1.ends = [(u, len(left_edges))]
-    la, lb = new_label(), new_label()
-    s_node = TNode(TArr([], [la, la]))
+
+    def edge():
+        e = TEdge.__new__(TEdge)
+        e.name, e.ends = None, []
+        return e
+    b1, b2 = edge(), edge()
+    # u: the node, its right axes merged into the new bond
+    u = mk(TArr(arr.factors, list(arr.out[:nl]) + [compound(list(arr.out[nl:]))], arr.coeff), left_edges + [b1])
+    p = [new_label() for _ in range(nr)]
+    q = [new_label() for _ in range(nr)]
+    s_node = TNode.__new__(TNode)
+    s_node.arr, s_node.name, s_node.edges = TArr([], [compound(p), compound(p)]), None, [b1, b2]
     s_node.factor_of_svd = True
-    vh = TNode(TArr([], [lb, lb]))
+    vh = TNode.__new__(TNode)
+    vh.arr, vh.name, vh.edges = TArr([], [compound(q)] + q), None, [b2] + right_edges
     vh.factor_of_svd = True
-    # connect u -b1- s -b2- vh, and give vh the original right edge
-    e_s0 = s_node.edges[0]
-    (n1, a1) = b1.ends[0]
-    b1.ends = [(n1, a1), (s_node, 0)]
-    s_node.edges[0] = b1
-    b2 = s_node.edges[1]
+    b1.ends = [(u, nl), (s_node, 0)]
     b2.ends = [(s_node, 1), (vh, 0)]
-    vh.edges[0] = b2
-    r_edge.ends = [((vh, 1) if (m is node or m is u) else (m, x)) for m, x in r_edge.ends]
-    vh.edges[1] = r_edge
+    for k, e in enumerate(right_edges):
+        e.ends = [((vh, 1 + k) if (m is node or m is u) else (m, x)) for m, x in e.ends]
     return (u, s_node, vh, TArr([], [new_label()]))
 
 
@@ -692,6 +713,32 @@ def install(R):
         re_ = kw.pop('right_edges', args[2] if len(args) > 2 else None)
         return split_node_full_svd(ip, node, le, re_, **kw)
     R.lib_models['tensornetwork.split_node_full_svd'] = m_svd
+
+    @model
+    def m_contract_edge(ip, args, kw):
+        e = args[0]
+        if not isinstance(e, TEdge) or e.is_dangling() or not e.ends:
+            raise PyRaise(ExcVal('ValueError', ('contract of a dangling or disabled edge',)))
+        (n1, _), (n2, _) = e.ends
+        shared = [x for x in n1.edges if not x.is_dangling() and any(m is n2 for m, _ in x.ends)]
+        if len(shared) != 1:
+            raise Unsupported('tn.contract(edge) between nodes that share several edges')
+        return contract_between(n1, n2)
+
+    @model
+    def m_greedy(ip, args, kw):
+        nodes = list(args[0])
+        if not nodes:
+            raise Unsupported('greedy contraction of nothing')
+        # contracts ALL the given nodes (the order is the contractor's business; the result is the same tensor)
+        c = nodes[0]
+        rest = nodes[1:]
+        while rest:
+            k = next((i for i, n in enumerate(rest) if any((not e.is_dangling()) and any(m is n for m, _ in e.ends) for e in c.edges)), 0)
+            c = contract_between(c, rest.pop(k))
+        return c
+    R.lib_models['tensornetwork.contract'] = m_contract_edge
+    R.lib_models['tensornetwork.contractors.greedy'] = m_greedy
     R.lib_models['tensornetwork.split_edge'] = m_split_edge
     R.lib_models['tensornetwork.flatten_edges'] = m_flatten_edges
     R.lib_models['numpy.tensordot'] = m_tensordot
